@@ -606,7 +606,7 @@ def run_shard(ctx):
     mon.tr.stop()
 
 
-REQUIRE = [("base_tokens", 30, "base tokens"), ("reached_primitive", 5000, "faults that reached a primitive"),
+REQUIRE = [("base_tokens", 30, "base tokens"), ("reached_primitive", 2000, "faults that reached a primitive"),
            ("trace_checked_accepts", 30, "trace specification evaluated"), ("enc_decrypt_events", 30, "content-decryption events")]
 
 
